@@ -62,6 +62,7 @@ func (fs *FS) Clone() *FS {
 			n.Dirs[k] = true
 		}
 	}
+	n.Order = fs.Order // the listing order is a property of the directory, not of one handle on it
 	return n
 }
 
